@@ -75,7 +75,36 @@ pub struct Dump {
     pub trail: Vec<DumpDecision>,
 }
 
+/// An observer of the solver state while `solve` runs. It is first called with `None` and says whether it
+/// wants to look at the state at this point; only then the state is copied and the observer is called again
+/// with the copy. Observers must not call back into the solver.
+pub type Observer = Box<dyn FnMut(Option<&Dump>) -> bool>;
+
+thread_local! {
+    static OBSERVER: std::cell::RefCell<Option<Observer>> = const { std::cell::RefCell::new(None) };
+}
+
+/// Installs (or, with `None`, removes) the observer of the current thread. The observer is invoked each time
+/// unit propagation has reached a fixpoint without conflict.
+pub fn set_observer(observer: Option<Observer>) {
+    OBSERVER.with(|o| *o.borrow_mut() = observer);
+}
+
 impl<D: DependencyProvider, RT: AsyncRuntime> Solver<D, RT> {
+    /// Shows the current state to the observer of this thread, if there is one and it is interested.
+    pub(crate) fn verif_observe(&self) {
+        OBSERVER.with(|o| {
+            if let Ok(mut guard) = o.try_borrow_mut() {
+                if let Some(observer) = guard.as_mut() {
+                    if observer(None) {
+                        let dump = self.verif_dump();
+                        observer(Some(&dump));
+                    }
+                }
+            }
+        });
+    }
+
     /// Copies the clause database and the decision trail of the most recent `solve` call.
     pub fn verif_dump(&self) -> Dump {
         let state = &self.state;
